@@ -360,5 +360,10 @@ def run(chk):
     from .c09 import r09_4
     chk.rule("R09.4", "(C08 dependency) linear formula and bracket search: a query on the last node brackets inside the table")
     chk.guard(r09_4, chk)
+    # the dates an iteration of the numerical propagator yields are reached by marching with the step the integrator
+    # actually took (C06's clause; wave o delivered `date += self.step` against both properties)
+    from .c06 import r06_2
+    chk.rule("R06.2", "(C08 dependency) stage wiring, acceptance polarity, marching by the accepted step")
+    chk.guard(r06_2, chk)
     chk.assume("StateVector.copy is a per-item copy (R15.1, C15); numpy arithmetic/slicing shallow-copies _data (__array_finalize__)")
     chk.assume("listeners are cleared at the start of each iteration: decided under C10 (R10.1)")
